@@ -343,7 +343,7 @@ def run_history(alpha: Alphabet, seed: int, length: int, kinds=None) -> Sim:
         'append_qudit': 1, 'insert_qudit': 2, 'pop_qudit': 2, 'renumber': 3,
         'compress': 2, 'save': 1, 'restore': 1, 'clear': 0.3, 'unfold': 4,
         'unfold_all': 1, 'fold': 6, 'straighten': 4, 'add': 1, 'iadd': 1,
-        'mul': 1, 'inverse': 1, 'remove': 1, 'batch_unfold': 1, 'extend': 1,
+        'mul': 1.5, 'inverse': 1, 'remove': 1, 'batch_unfold': 1, 'extend': 1,
         'copy_eq': 0.5,
     }
     if kinds:
@@ -379,8 +379,13 @@ def run_history(alpha: Alphabet, seed: int, length: int, kinds=None) -> Sim:
             op = sim.rand_op(c, valid=rng.random() < 0.93)
             if op is None:
                 continue
-            attempt(f'append {sim.op_text(op)}', f'append({op!r})',
-                    lambda: c.append(op), lambda r: f'ok {r}')
+            if rng.random() < 0.3:
+                attempt(f'append {sim.op_text(op)}', f'append_gate({op!r})',
+                        lambda: c.append_gate(op.gate, op.location, op.params),
+                        lambda r: f'ok {r}')
+            else:
+                attempt(f'append {sim.op_text(op)}', f'append({op!r})',
+                        lambda: c.append(op), lambda r: f'ok {r}')
         elif kind == 'extend':
             ops = [sim.rand_op(c) for _ in range(rng.randint(1, 3))]
             ops = [o for o in ops if o is not None]
@@ -392,8 +397,14 @@ def run_history(alpha: Alphabet, seed: int, length: int, kinds=None) -> Sim:
             if op is None:
                 continue
             ci = rng.randint(-c.num_cycles - 2, c.num_cycles + 2)
-            attempt(f'insert {ci} {sim.op_text(op)}', f'insert({ci}, {op!r})',
-                    lambda: c.insert(ci, op))
+            if rng.random() < 0.3:
+                attempt(f'insert {ci} {sim.op_text(op)}',
+                        f'insert_gate({ci}, {op!r})',
+                        lambda: c.insert_gate(ci, op.gate, op.location,
+                                              op.params))
+            else:
+                attempt(f'insert {ci} {sim.op_text(op)}',
+                        f'insert({ci}, {op!r})', lambda: c.insert(ci, op))
         elif kind == 'pop':
             p = rand_point(sim, c)
             attempt(f'pop {p[0]} {p[1]}', f'pop({p})', lambda: c.pop(p),
@@ -444,8 +455,14 @@ def run_history(alpha: Alphabet, seed: int, length: int, kinds=None) -> Sim:
                 op = sim.rand_op(c)
             if op is None:
                 continue
-            attempt(f'replace {p[0]} {p[1]} {sim.op_text(op)}',
-                    f'replace({p}, {op!r})', lambda: c.replace(p, op))
+            if rng.random() < 0.3:
+                attempt(f'replace {p[0]} {p[1]} {sim.op_text(op)}',
+                        f'replace_gate({p}, {op!r})',
+                        lambda: c.replace_gate(p, op.gate, op.location,
+                                               op.params))
+            else:
+                attempt(f'replace {p[0]} {p[1]} {sim.op_text(op)}',
+                        f'replace({p}, {op!r})', lambda: c.replace(p, op))
         elif kind == 'batch_replace':
             pts = [(k, q) for k in range(c.num_cycles)
                    for q in range(c.num_qudits)
@@ -538,8 +555,12 @@ def run_history(alpha: Alphabet, seed: int, length: int, kinds=None) -> Sim:
             if c.num_qudits >= 7:
                 continue
             r = rng.choice([2, 2, 3, 1])
-            attempt(f'append_qudit {r}', f'append_qudit({r})',
-                    lambda: c.append_qudit(r))
+            if rng.random() < 0.4 and r >= 2:
+                attempt(f'append_qudit {r}', f'extend_qudits([{r}])',
+                        lambda: c.extend_qudits([r]))
+            else:
+                attempt(f'append_qudit {r}', f'append_qudit({r})',
+                        lambda: c.append_qudit(r))
         elif kind == 'insert_qudit':
             if c.num_qudits >= 7:
                 continue
@@ -664,17 +685,28 @@ def run_history(alpha: Alphabet, seed: int, length: int, kinds=None) -> Sim:
                 attempt(f'add {st}', f'c = c + <{st}>', f)
             else:
                 def f():
-                    c.__iadd__(sub)
+                    nonlocal c
+                    c += sub
+                    if c is None:
+                        raise AssertionError('c += x rebinds c to None')
                 attempt(f'iadd {st}', f'c += <{st}>', f)
         elif kind == 'mul':
             if c.num_operations > 12:
                 continue
             k = rng.randint(0, 3)
 
-            def f():
-                nonlocal c
-                c = c * k
-            attempt(f'mul {k}', f'c = c * {k}', f)
+            if rng.random() < 0.4:
+                def f():
+                    nonlocal c
+                    c *= k
+                    if c is None:
+                        raise AssertionError('c *= k rebinds c to None')
+                attempt(f'imul {k}', f'c *= {k}', f)
+            else:
+                def f():
+                    nonlocal c
+                    c = c * k
+                attempt(f'mul {k}', f'c = c * {k}', f)
         elif kind == 'inverse':
             if any(isinstance(o.gate, CircuitGate) for o in c):
                 continue
